@@ -193,13 +193,48 @@ Proof.
   - apply in_map_iff in H. destruct H as [[k res'] [<- H]]. eapply CH; eauto.
 Qed.
 
-(** F04c at this layer: a renewal under a smaller certificate publishes a ROA outside it. *)
+(** L4 at key-roll activation (rc.rs:560-638, since the repair of F04c): what the class publishes after the renewal
+    under the NEW key's certificate lies within that certificate - no exception for activations any more. Child
+    certificates again by C02 (activate_key reduces them to the new certificate, child.rs:243-275). *)
+Theorem contained_at_activation asn_of res_of simple_name aggr_name sign r cert
+        ares_of asign ao kres_of bsign bo children :
+  wf asn_of r -> NoDup (map fst ao) -> NoDup (map fst bo) ->
+  (forall k res, In (k, res) children -> subset res cert = true) ->
+  forall res, In res (published_resources res_of ares_of kres_of
+                        (apply_updates r (renewal_fixed res_of simple_name aggr_name sign cert r))
+                        (aspa_apply ao (aspa_renewal ares_of asign cert ao))
+                        (bgp_apply bo (bgp_renewal kres_of bsign cert bo)) children) ->
+  subset res cert = true.
+Proof.
+  intros W NDa NDb CH res H.
+  destruct (renewal_fixed_exact asn_of res_of simple_name aggr_name sign cert r W) as [[_ [_ [_ [N1 N2]]]] E].
+  unfold published_resources in H. repeat (apply in_app_or in H; destruct H as [H|H]).
+  - apply in_map_iff in H. destruct H as [[k i] [<- H]]. apply roa_res_contained. intros p Hp.
+    assert (Cr : carries (apply_updates r (renewal_fixed res_of simple_name aggr_name sign cert r)) p).
+    { apply in_app_or in H. destruct H as [H|H]; [left|right]; exists k, i; (split; [|exact Hp]); apply in_nodup_aget; assumption. }
+    apply E in Cr. destruct Cr as [_ Hh]. exact Hh.
+  - apply in_map_iff in H. destruct H as [[c i] [<- H]].
+    assert (ND : NoDup (map fst (aspa_apply ao (aspa_renewal ares_of asign cert ao)))) by (unfold aspa_apply; apply NoDup_rem_all, NoDup_ins_all, NDa).
+    eapply aspa_renewal_contained. apply (in_nodup_aget _ _ _ ND H).
+  - apply in_map_iff in H. destruct H as [[k o] [<- H]].
+    assert (ND : NoDup (map fst (bgp_apply bo (bgp_renewal kres_of bsign cert bo)))) by (unfold bgp_apply; apply NoDup_rem_all, NoDup_ins_all, NDb).
+    eapply bgp_renewal_contained. apply (in_nodup_aget _ _ _ ND H).
+  - apply in_map_iff in H. destruct H as [[k res'] [<- H]]. eapply CH; eauto.
+Qed.
+
+(** F04c, regression witness at this layer: the renewal of the originally pinned tree under a smaller certificate
+    published a ROA outside it; the repaired renewal does not. *)
 Example contained_fails_after_renewal :
-  match ex_run [SDerive [1; 3] 3; SRenew] with
-  | Some r => existsb (fun '(_, i) => negb (subset (roa_res ex_res (ri_auths i)) 1)) (ro_simple r ++ ro_aggr r) = true
+  match ex_run [SDerive [1; 3] 3] with
+  | Some r0 => let r := apply_updates r0 (renewal_pinned id id ex_sign r0) in
+               existsb (fun '(_, i) => negb (subset (roa_res ex_res (ri_auths i)) 1)) (ro_simple r ++ ro_aggr r) = true
   | None => False
-  end.
-Proof. vm_compute. reflexivity. Qed.
+  end
+  /\ match ex_run [SDerive [1; 3] 3; SRenew 1] with
+     | Some r => forallb (fun '(_, i) => subset (roa_res ex_res (ri_auths i)) 1) (ro_simple r ++ ro_aggr r) = true /\ payloads r = [1]
+     | None => False
+     end.
+Proof. vm_compute. auto. Qed.
 
 Example contained_nonvacuous :
   match create_updates ex_asn ex_res id id ex_sign roas_empty [1; 3] 1 2 3 with
